@@ -41,35 +41,101 @@ func contCfg(sizes string, small, maxOps int, cow, coa, emit bool) string {
 
 // instantiateContainers renders a behaviour as grol inputs plus the expected print after each input.
 // kind "arr": arrays; kind "map": maps whose i-th smallest key carries the i-th element.
-func instantiateContainers(h []contOp, kind string) (inputs []string, ok bool) {
+// variant selects the source form of the initial value and of every copy (variant 0 = the plain forms): the value
+// semantics are the same, what differs is where the storage comes from - a literal, a slice of a larger container that
+// stays bound to `par` (printed too: it must never change), the `..` array of a variadic call, a value built by appends or
+// deletions, a value taken out of another container or passed through a function or a loop variable.
+func instantiateContainers(h []contOp, kind string, variant int) (inputs []string, ok bool) {
 	vars := []string{"a", "b", "c"}
 	keys := map[string][]int{"a": nil, "b": nil, "c": nil}
 	probe := "println(a, b, c)"
+	if variant > 0 {
+		probe = "println(a, b, c); println(par, hold)"
+	}
+	inputs = append(inputs, "idf = func(p) {p}; pack = func(..) {..}; par = nil; hold = {}")
+	appendForm := func(y, x, v string, i int) string { // y = x + v with the left operand written in several ways
+		if variant == 0 {
+			return y + " = " + x + " + " + v
+		}
+		forms := []string{"%[1]s = %[2]s + %[3]s", "%[1]s = idf(%[2]s) + %[3]s", "%[1]s = %[2]s[0:] + %[3]s", "%[1]s = [%[2]s][0] + %[3]s", "%[1]s = (%[2]s) + %[3]s",
+			"%[1]s = (if true {%[2]s} else {0}) + %[3]s", `%[1]s = {"k": %[2]s}.k + %[3]s`, "%[1]s = first([%[2]s]) + %[3]s"}
+		return fmt.Sprintf(forms[(variant/3+i)%len(forms)], y, x, v)
+	}
 	if kind == "arr" {
 		inputs = append(inputs, "mut = func(p, v) {p[0] = v; p}")
 	} else {
 		inputs = append(inputs, "mutm = func(p, k, v) {p[k] = v; p}")
 	}
+	copyForm := func(y, x string, i int) string {
+		if variant == 0 {
+			return y + " = " + x
+		}
+		forms := []string{"%[1]s = %[2]s", "t = [%[2]s]; %[1]s = t[0]", `t = {"k": %[2]s}; %[1]s = t.k`, "%[1]s = idf(%[2]s)", "for q = [%[2]s] {%[1]s = q}",
+			"t = []; t = t + [%[2]s]; %[1]s = t[0]", "%[1]s = (() => %[2]s)()", "t = [0, %[2]s]; t[0] = %[2]s; %[1]s = t[1]", `t = {}; t.k = %[2]s; %[1]s = first(t).value`}
+		return fmt.Sprintf(forms[(variant+i)%len(forms)], y, x)
+	}
 	for i, op := range h {
 		v := 100 + i // Fresh == 100 + Len(hist) before the step
 		switch op.Op {
 		case "init":
-			if kind == "arr" {
-				if op.N == 0 {
-					inputs = append(inputs, "a = []; b = []; c = []")
-				} else {
-					inputs = append(inputs, fmt.Sprintf("a = 1:%d; b = []; c = []", op.N+1))
-				}
-			} else {
-				var ps []string
-				for k := 1; k <= op.N; k++ {
-					ps = append(ps, fmt.Sprintf("%d:%d", k, k))
+			var es, ps []string
+			for k := 1; k <= op.N; k++ {
+				es = append(es, fmt.Sprint(k))
+				ps = append(ps, fmt.Sprintf("%d:%d", k, k))
+				if kind == "map" {
 					keys["a"] = append(keys["a"], k)
 				}
-				inputs = append(inputs, "a = {"+strings.Join(ps, ",")+"}; b = {}; c = {}")
+			}
+			n := op.N
+			if kind == "arr" {
+				src := fmt.Sprintf("a = 1:%d", n+1)
+				if n == 0 {
+					src = "a = []"
+				}
+				if variant > 0 {
+					switch variant % 6 {
+					case 1:
+						src = "a = [" + strings.Join(es, ", ") + "]"
+					case 2: // a prefix of a larger array that stays bound (spare capacity behind the slice)
+						src = fmt.Sprintf("par = 1:%d; a = par[0:%d]", n+6, n)
+					case 3: // the `..` array of a variadic call
+						src = "a = pack(" + strings.Join(es, ", ") + ")"
+					case 4: // built by appends (storage grown in steps)
+						src = fmt.Sprintf("a = []; for i = %d {a = a + (i + 1)}", n)
+					case 5: // the tail and the middle of larger arrays
+						src = fmt.Sprintf("par = 0:%d; a = rest(par)", n+1)
+					default:
+						src = fmt.Sprintf("par = -2:%d; a = par[3:%d]", n+4, n+3)
+					}
+				}
+				inputs = append(inputs, src+"; b = []; c = []")
+			} else {
+				src := "a = {" + strings.Join(ps, ",") + "}"
+				if variant > 0 {
+					switch variant % 5 {
+					case 1: // built by insertions, largest key first
+						src = "a = {}"
+						for k := n; k >= 1; k-- {
+							src += fmt.Sprintf("; a[%d] = %d", k, k)
+						}
+					case 2: // was larger, shrunk by del (the large representation with few pairs)
+						src = fmt.Sprintf("a = {%s}", strings.Join(append(append([]string{}, ps...), "91:91", "92:92", "93:93", "94:94", "95:95"), ","))
+						src += "; for k = 91:96 {del(a[k])}"
+					case 3: // a range of a larger map that stays bound
+						src = fmt.Sprintf("par = {%s}; a = par[0:%d]", strings.Join(append(append([]string{}, ps...), "91:91", "92:92", "93:93", "94:94", "95:95"), ","), n)
+					case 4: // a merge result
+						h := n / 2
+						src = fmt.Sprintf("a = {%s} + {%s}", strings.Join(ps[:h], ","), strings.Join(ps[h:], ","))
+					default: // rest of a larger map (rest of a one-pair map is nil, not {}: only when something remains)
+						if n > 0 {
+							src = fmt.Sprintf("par = {%s}; a = rest(par)", strings.Join(append([]string{"-5:-5"}, ps...), ","))
+						}
+					}
+				}
+				inputs = append(inputs, src+"; b = {}; c = {}")
 			}
 		case "copy":
-			inputs = append(inputs, fmt.Sprintf("%s = %s", op.Y, op.X))
+			inputs = append(inputs, copyForm(op.Y, op.X, i))
 			keys[op.Y] = append([]int{}, keys[op.X]...)
 		case "set":
 			if kind == "arr" {
@@ -88,9 +154,9 @@ func instantiateContainers(h []contOp, kind string) (inputs []string, ok bool) {
 			}
 		case "append":
 			if kind == "arr" {
-				inputs = append(inputs, fmt.Sprintf("%s = %s + %d", op.Y, op.X, v))
+				inputs = append(inputs, appendForm(op.Y, op.X, fmt.Sprint(v), i))
 			} else {
-				inputs = append(inputs, fmt.Sprintf("%s = %s + {%d:%d}", op.Y, op.X, v, v))
+				inputs = append(inputs, appendForm(op.Y, op.X, fmt.Sprintf("{%d:%d}", v, v), i))
 				keys[op.Y] = append(append([]int{}, keys[op.X]...), v)
 			}
 		case "shrink":
@@ -110,13 +176,13 @@ func instantiateContainers(h []contOp, kind string) (inputs []string, ok bool) {
 			if op.Which == 2 {
 				k = ks[len(ks)-1]
 			}
-			inputs = append(inputs, fmt.Sprintf("%s = %s + {%d:%d}", op.Y, op.X, k, v))
+			inputs = append(inputs, appendForm(op.Y, op.X, fmt.Sprintf("{%d:%d}", k, v), i))
 			keys[op.Y] = append([]int{}, ks...)
 		case "concat":
 			if kind != "arr" {
 				return nil, false
 			}
-			inputs = append(inputs, fmt.Sprintf("%s = %s + %s", op.Y, op.X, op.Z))
+			inputs = append(inputs, appendForm(op.Y, op.X, op.Z, i))
 		case "call":
 			if kind == "arr" {
 				inputs = append(inputs, fmt.Sprintf("%s = mut(%s, %d)", op.Y, op.X, v))
@@ -124,6 +190,13 @@ func instantiateContainers(h []contOp, kind string) (inputs []string, ok bool) {
 				inputs = append(inputs, fmt.Sprintf("%s = mutm(%s, %d, %d)", op.Y, op.X, keys[op.X][0], v))
 				keys[op.Y] = append([]int{}, keys[op.X]...)
 			}
+		}
+		if variant > 0 && op.Op != "init" {
+			tgt := op.Y
+			if op.Op == "set" || op.Op == "shrink" {
+				tgt = op.X
+			}
+			inputs[len(inputs)-1] += fmt.Sprintf("; hold[%d] = %s", i, tgt) // stored inside another container: must keep this value
 		}
 		inputs = append(inputs, probe)
 	}
@@ -220,7 +293,11 @@ func checkC06(c *Ctx) {
 			if (n+int(c.Seed))%stride != 0 {
 				return nil
 			}
-			inputs, ok := instantiateContainers(g.H, sp.kind)
+			variant := 0
+			if n%2 == 1 { // every other behaviour with other source forms of its initial value and copies
+				variant = 1 + (n/2+int(c.Seed))%30
+			}
+			inputs, ok := instantiateContainers(g.H, sp.kind, variant)
 			if !ok {
 				return nil
 			}
@@ -242,7 +319,19 @@ func checkC06(c *Ctx) {
 			}
 			want := expectedPrint(g.Val, g.H, sp.kind)
 			got := obs[len(obs)-1]
-			bad := got.Err || got.Out != want
+			parChanged := ""
+			if variant > 0 { // second line of every probe: the container the initial value was cut from; it never changes
+				first := ""
+				for k := 3; k < len(obs); k += 2 {
+					abc, parLine, _ := strings.Cut(obs[k].Out, "\n")
+					obs[k].Out = abc + "\n"
+					if msg := c06SideLine(&first, strings.TrimSuffix(parLine, "\n")); msg != "" {
+						parChanged = fmt.Sprintf("%s (step %d)", msg, (k-1)/2)
+					}
+				}
+				got = obs[len(obs)-1]
+			}
+			bad := got.Err || got.Out != want || parChanged != ""
 			// (i) non-interference, self-relative: bindings not assigned by the last operation print as before
 			if !bad && len(obs) >= 3 {
 				prev := strings.Fields(strings.TrimSpace(obs[len(obs)-3].Out))
@@ -266,8 +355,8 @@ func checkC06(c *Ctx) {
 				}
 			}
 			if bad {
-				c.Fail(contSignature(g.H, sp.kind), fmt.Sprintf("after %v: printed %q (err=%v %s), values predict %q", g.H[len(g.H)-1], got.Out, got.Err, got.Val, want),
-					map[string]any{"check": "gen", "kind": sp.kind, "inputs": inputs, "want": want})
+				c.Fail(contSignature(g.H, sp.kind), fmt.Sprintf("after %v: printed %q (err=%v %s), values predict %q %s", g.H[len(g.H)-1], got.Out, got.Err, got.Val, want, parChanged),
+					map[string]any{"check": "gen", "kind": sp.kind, "inputs": inputs, "want": want, "variant": variant})
 			} else {
 				c.AddTraces(1)
 			}
@@ -318,12 +407,41 @@ func checkC06(c *Ctx) {
 	sort.Strings(ks)
 }
 
+// c06SideLine judges the second line of a probe, "<par> <hold>": par (the container the initial value was taken from) never
+// changes; hold (a map step -> the value stored there at that step) only grows at its end: every stored value stays.
+func c06SideLine(prev *string, line string) string {
+	if *prev == "" {
+		*prev = line
+		return ""
+	}
+	pp, ph, _ := strings.Cut(*prev, " {")
+	cp, ch, _ := strings.Cut(line, " {")
+	*prev = line
+	if pp != cp {
+		return fmt.Sprintf("the container the initial value was taken from printed %q and later %q", pp, cp)
+	}
+	if !strings.HasPrefix(ch, strings.TrimSuffix(ph, "}")) {
+		return fmt.Sprintf("a value stored inside another container changed: the holder printed {%s and later {%s", ph, ch)
+	}
+	return ""
+}
+
 func replayC06(rp map[string]any) (bool, string) {
 	var inputs []string
 	b, _ := json.Marshal(rp["inputs"])
 	_ = json.Unmarshal(b, &inputs)
 	want, _ := rp["want"].(string)
 	obs, _ := runHistory(inputs, RunOpt{})
+	if v, _ := rp["variant"].(float64); v > 0 {
+		first := ""
+		for k := 3; k < len(obs); k += 2 {
+			abc, parLine, _ := strings.Cut(obs[k].Out, "\n")
+			obs[k].Out = abc + "\n"
+			if msg := c06SideLine(&first, strings.TrimSuffix(parLine, "\n")); msg != "" {
+				return false, msg
+			}
+		}
+	}
 	got := obs[len(obs)-1]
 	if got.Err || got.Out != want {
 		return false, fmt.Sprintf("printed %q (err=%v), values predict %q", got.Out, got.Err, want)
